@@ -434,11 +434,28 @@ static ares_status_t process_option(ares_sysconfig_t *sysconfig,
 
   key = kv[0];
   if (num == 2) {
-    val    = kv[1];
-    valint = (unsigned int)strtoul(val, NULL, 10);
+    unsigned long v;
+
+    val = kv[1];
+    /* Only plain decimal numbers that fit: a sign, garbage or an absurdly
+     * large number makes the option malformed, which means it is ignored */
+    if (!ares_str_isnum(val)) {
+      status = ARES_EFORMERR;
+      goto done;
+    }
+    v = strtoul(val, NULL, 10);
+    if (v > 0xFFFFFFFFUL / 1000) {
+      status = ARES_EFORMERR;
+      goto done;
+    }
+    valint = (unsigned int)v;
   }
 
   if (ares_streq(key, "ndots")) {
+    if (num != 2) {
+      status = ARES_EFORMERR;
+      goto done;
+    }
     sysconfig->ndots = valint;
   } else if (ares_streq(key, "retrans") || ares_streq(key, "timeout")) {
     if (valint == 0) {
